@@ -62,6 +62,56 @@ def in_class(v):
     return any(lo <= v <= hi for lo, hi in CLASSES)
 
 
+def run_error_codes(p2, F, run_):
+    """instances `Run|code|<exception type>`: the solve result BackendApp::Run reports for each kind of caught exception"""
+    tr = [n for n in run_.walk() if n["k"] == "CXXTryStmt"][0]
+    for t, h in catches(tr):
+        rc = [c for c in walk(h) if c["k"] == "CXXMemberCallExpr" and c.get("callee", "").endswith("::ReportError")]
+        if not rc:
+            continue
+        a0 = strip(expand_locals(run_, call_args(rc[0])[0], 0, True))      # a named solve result is looked through
+        tn = t.replace("const ", "").replace("&", "").strip() or "..."
+        if a0["k"] == "ConditionalOperator":
+            c, x, y = kids(a0)
+            c = strip(c)
+            okm = c["k"] == "BinaryOperator" and c.get("op") == ">=" and strip(kids(c)[0]).get("callee") == "mp::Error::exit_code" and \
+                cv(kids(c)[1]) == 0 and strip(x).get("callee") == "mp::Error::exit_code" and cv(y) is not None and in_class(cv(y))
+            p2.check(okm, "Run|code|%s" % tn, short_loc(rc[0].get("l")), "reports exit_code() if >= 0, else %s" % cv(y),
+                     "the reported solve result is `%s`" % render(a0)[:80])
+        elif cv(a0) is None:
+            # the code is computed by statements of the handler: they are evaluated for exit codes of either sign
+            from ..cfg import MiniInt as _MI
+            okm, seen_ = True, []
+            for E_ in (-1, 0, 150, 500):
+                rec_, box = [], {}
+
+                def atom(t_, n_, env_, E_=E_):
+                    if n_["k"] == "CXXMemberCallExpr":
+                        cn_ = n_.get("callee") or ""
+                        if cn_ == "mp::Error::exit_code":
+                            return E_
+                        if cn_.endswith("::ReportError"):
+                            rec_.append(box["mi"].expr(call_args(n_)[0], env_, 0))
+                            return 0
+                    return None
+                mi = _MI(F, atom)
+                box["mi"] = mi
+                body_ = [x for x in kids(h) if x is not None and x["k"] == "CompoundStmt"]
+                try:
+                    mi.cur.append(run_)
+                    mi.run(kids(body_[-1]) if body_ else [], {}, 0)
+                except AnalysisBroken:
+                    okm = False
+                    break
+                seen_.append((E_, rec_))
+                okm = okm and len(rec_) == 1 and ((rec_[0] == E_) if E_ >= 0 else in_class(rec_[0]))
+            p2.check(okm, "Run|code|%s" % tn, short_loc(rc[0].get("l")), "reports exit_code() if >= 0, else a failure code",
+                     "the reported solve result per exit code: %s" % seen_)
+        else:
+            p2.check(cv(a0) is not None and in_class(cv(a0)), "Run|code|%s" % tn, short_loc(rc[0].get("l")), "reports solve result %s" % cv(a0),
+                     "reports solve result `%s`" % render(a0)[:60])
+
+
 def catches(tr):
     """[(caught type string, handler block)] of a CXXTryStmt"""
     out = []
@@ -168,52 +218,7 @@ def run(rep, ctx):
     # ---- P2 ---------------------------------------------------------------------------
     p2 = rep.rule("C09.P2", "RANGE", "solve-result class of reported errors; error codes at throw sites", floor=6)
     run_ = one("mp::BackendApp::Run")
-    tr = [n for n in run_.walk() if n["k"] == "CXXTryStmt"][0]
-    for t, h in catches(tr):
-        rc = [c for c in walk(h) if c["k"] == "CXXMemberCallExpr" and c.get("callee", "").endswith("::ReportError")]
-        if not rc:
-            continue
-        a0 = strip(expand_locals(run_, call_args(rc[0])[0], 0, True))      # a named solve result is looked through
-        tn = t.replace("const ", "").replace("&", "").strip() or "..."
-        if a0["k"] == "ConditionalOperator":
-            c, x, y = kids(a0)
-            c = strip(c)
-            okm = c["k"] == "BinaryOperator" and c.get("op") == ">=" and strip(kids(c)[0]).get("callee") == "mp::Error::exit_code" and \
-                cv(kids(c)[1]) == 0 and strip(x).get("callee") == "mp::Error::exit_code" and cv(y) is not None and in_class(cv(y))
-            p2.check(okm, "Run|code|%s" % tn, short_loc(rc[0].get("l")), "reports exit_code() if >= 0, else %s" % cv(y),
-                     "the reported solve result is `%s`" % render(a0)[:80])
-        elif cv(a0) is None:
-            # the code is computed by statements of the handler: they are evaluated for exit codes of either sign
-            from ..cfg import MiniInt as _MI
-            okm, seen_ = True, []
-            for E_ in (-1, 0, 150, 500):
-                rec_, box = [], {}
-
-                def atom(t_, n_, env_, E_=E_):
-                    if n_["k"] == "CXXMemberCallExpr":
-                        cn_ = n_.get("callee") or ""
-                        if cn_ == "mp::Error::exit_code":
-                            return E_
-                        if cn_.endswith("::ReportError"):
-                            rec_.append(box["mi"].expr(call_args(n_)[0], env_, 0))
-                            return 0
-                    return None
-                mi = _MI(F, atom)
-                box["mi"] = mi
-                body_ = [x for x in kids(h) if x is not None and x["k"] == "CompoundStmt"]
-                try:
-                    mi.cur.append(run_)
-                    mi.run(kids(body_[-1]) if body_ else [], {}, 0)
-                except AnalysisBroken:
-                    okm = False
-                    break
-                seen_.append((E_, rec_))
-                okm = okm and len(rec_) == 1 and ((rec_[0] == E_) if E_ >= 0 else in_class(rec_[0]))
-            p2.check(okm, "Run|code|%s" % tn, short_loc(rc[0].get("l")), "reports exit_code() if >= 0, else a failure code",
-                     "the reported solve result per exit code: %s" % seen_)
-        else:
-            p2.check(cv(a0) is not None and in_class(cv(a0)), "Run|code|%s" % tn, short_loc(rc[0].get("l")), "reports solve result %s" % cv(a0),
-                     "reports solve result `%s`" % render(a0)[:60])
+    run_error_codes(p2, F, run_)
     for f in [g for g in funcs if g.qn == "mp::Error::Error"]:
         init = [i for i in f.d.get("inits", []) if i.get("name") == "exit_code_"]
         key = "Error-ctor|%s" % (f.full.split("Error::Error")[-1][:40] or "()") + "|" + ",".join((p.get("t") or "")[:12] for p in f.params)
